@@ -38,6 +38,9 @@ Calls == {
   <<"float", ".ipart()">>, <<"float", ".fpart()">>,
   <<"byte", ".to_int()">>, <<"byte", ".to_bigint()">>, <<"byte", ".to_byte()">>, <<"byte", ".to_float()">>, <<"byte", ".abs()">>, <<"byte", ".pow(2)">>,
   <<"byte", ".powf(2.0)">>, <<"byte", ".sqrt()">>, <<"byte", ".to_str()">>, <<"byte", ".to_ascii()">>,
+  \* boundary exponents: a result that could be the receiver itself still has the declared kind
+  <<"int", ".pow(1)">>, <<"int", ".pow(z1)">>, <<"int", ".pow(z0)">>, <<"byte", ".pow(1)">>, <<"byte", ".pow(z1)">>, <<"byte", ".pow(z0)">>,
+  <<"bigint", ".pow(z1)">>, <<"float", ".pow(z1)">>, <<"int", ".powf(1.0)">>, <<"byte", ".powf(1.0)">>, <<"int", ".abs()">>,
   <<"list", ".len()">>, <<"list", ".map(dbl)">>, <<"list", ".filter(big)">>, <<"list", ".remove(z0)">>, <<"list", ".index_of(2)">>, <<"list", ".index_of(9)">>,
   <<"list", ".clone()">>, <<"list", ".join(il)">>, <<"list", "[z0]">>, <<"list", " == il">>, <<"list", " is il">>, <<"lol", "[z0]">>, <<"strs", "[z0]">>,
   <<"strs", ".map(slen)">>, <<"lol", ".len()">>,
